@@ -3,9 +3,9 @@ import os, re
 from . import common as C
 
 MANIFEST = dict(
-   technique="Lean 4 proof about a transcription of FlattenError/TreeifyError/FormatError/PrettifyError/ToDotPath (count and placement theorems over all issue trees) + differential correspondence of the model and of an independent grouping oracle against the real formatters on generated and Parse-produced ZodErrors",
-   text="Theorems c19_flatten_count/_place, c19_tree_count/_place, c19_format_count/_place (partial: no path segment equal to the reserved key \"_errors\"; witness theorems show the loss inside that region), c19_prettify_count/_place, c19_nonempty prove for every issue list (any codes, typed paths, nested union branches and sub-issues) that each report carries exactly one message per issue (per nested leaf for wrapper issues in FormatError), filed at the position the path denotes. The hand-written model is tied to /repo by running model, spec oracle and the four real formatters on thousands of synthesised issue trees and real failing Parse calls and comparing canonical renderings.",
-   note="Trusted: Lean kernel; axioms propext/Classical.choice/Quot.sound only; the Go harness, hex line protocol and comparer. The model is a hand transcription validated on generated cases. Issue.msg stands for mapper(issue) (formatter output for empty messages is not modelled). Paths are string keys and non-negative ints; other element types and negative ints are outside the model. FormatError's reserved key \"_errors\" is an open known finding.",
+   technique="Lean 4 proof about a transcription of FlattenError/TreeifyError/FormatError/PrettifyError/ToDotPath (count, placement and path-injectivity theorems over all issue trees and all paths) + whole-table theorems over a go/ast translation of gozod.go's re-exports and errors.go's thin entry points + differential correspondence of the model and of an independent grouping oracle against the real formatters, through every exported entry point, on generated and Parse-produced ZodErrors",
+   text="Theorems c19_flatten_count/_place, c19_tree_count/_place, c19_format_count/_place (partial: no path segment equal to the reserved key \"_errors\"; witness theorems show the loss inside that region), c19_prettify_count/_place, c19_nonempty prove for every issue list (any codes, typed paths, union branches and sub-issues nested to any depth) that each report carries exactly one message per issue (per nested leaf for wrapper issues in FormatError), filed at the position the path denotes. c19_dotpath_esc_injective proves for ToDotPath as it stands (quoted keys escaped, since c7ce73a) that two different paths of any length with arbitrary keys never render alike, so PrettifyError, PrettifyErrorWithFormatter and err.Error() (c19_error_eq_prettify) name every position unambiguously. c19_exports_are_internal/_cover, c19_wrappers_as_expected, c19_errors_go_accounted and c19_error_method_as_expected are decided over a table regenerated from gozod.go and internal/issues/errors.go on every run: each exported formatter is the internal function of the same name, each thin entry point hands the unchanged error to the transcribed function with defaultIssueMapper of the right formatter, and no function of errors.go is unaccounted for. The hand-written model is tied to /repo by running model, spec oracle and the real formatters — through the plain entry points, err.Error(), the WithMapper/WithFormatter variants with custom mappers and formatters, and SetFormatter — on thousands of synthesised issue trees and real failing Parse calls and comparing canonical renderings; structure fingerprints of the 16 Go functions involved aim the run when one is edited.",
+   note="Trusted: Lean kernel; axioms propext/Classical.choice/Quot.sound only; the Go harness, hex line protocol and comparer; the go/ast translator (source text only). The model is a hand transcription validated on generated cases. Issue.msg stands for mapper(issue): the default formatter's text is taken from the library, custom mappers/formatters are computed by the harness. Paths are string keys and non-negative ints; other element types, negative ints and a nil *ZodError are outside the model. FormatError's reserved key \"_errors\" is an open known finding (pending/C19-format-reserved-key.diff stops the loss of the message; the placement cannot be repaired within the report shape).",
    design="DESIGN.md §5 C19; notes/C19.md")
 
 MODULES = ["Gozod.Proofs.C19", "Gozod.Proofs.C19Dot", "Gozod.Proofs.C19Exports"]
@@ -161,9 +161,11 @@ def run(res):
         "mixing identifier keys, numeric-looking keys, keys with dots/spaces/quotes/non-ASCII, \"_errors\", \"\" and sparse int indices; union issues with 0-3 branches of 0-3 "
         "issues, key/element issues with 0-3 sub-issues, nesting depth <= 3; duplicated and separator-containing messages) wrapped as a struct-literal ZodError "
         "or on a copy of a real error; and errors of real failing Parse calls of generated Object/StrictObject/Slice/Array/Tuple/Union/Record/Map schemas "
-        "on generated values. distinct = distinct issue trees.")
+        "on generated values. Keys also carry double quotes, backslashes and brackets; a tenth of the lists nests wrapper issues to depth 6; 6 % of the issues are exact repeats; nil Issues. "
+        "45 % of the cases are observed through another entry point: err.Error(), FlattenErrorWithFormatter/PrettifyErrorWithFormatter/SetFormatter with a custom formatter, "
+        "FlattenErrorWithMapper/TreeifyErrorWithMapper with a custom mapper, ...WithFormatter(e, e.Formatter()). distinct = distinct issue trees.")
     res.assumptions += [
-        "Issue.msg stands for mapper(issue); generated messages are non-empty, so the message formatter is not exercised",
+        "Issue.msg stands for mapper(issue): for the default mapper the harness asks the library for it (empty messages occur in 15 % of the lists), for custom mappers/formatters it computes it itself",
         "path elements are strings or non-negative ints (anything else is counted as skipped in the input distribution)",
         "FormatError replaces wrapper issues (invalid_union with branch errors, invalid_key/invalid_element with sub-issues) by their nested leaves with the wrapper's path as prefix (reading decision, notes/C19.md)",
     ]
